@@ -353,7 +353,10 @@ def createDevice (fetch : Str â†’ Fetch) (nonStrict : Bool) (base : Str) : Nat â
 
 /-- `async_create_device`.  The factory keeps NO state between creations: the result is a function of
     what the requester answers now (`fetch`) and of the options (`nonStrict`) only; the same `UpnpFactory`
-    creating again after a document changed must see the new document (the harness runs such histories) -/
+    creating again after a document changed must see the new document (the harness runs such histories).
+    Nor is anything shared between creations IN FLIGHT at the same time: each is a function of its own
+    `base` and of the responses to its own requests (the harness runs 2-3 concurrent creations through a
+    requester that suspends, releasing the responses in every / sampled order) -/
 def asyncCreateDevice (fetch : Str â†’ Fetch) (nonStrict : Bool) (base : Str) (fuel : Nat) : Except FErr (DevM F) :=
   match fetch base with
   | .status _ => .error .response
